@@ -91,7 +91,7 @@ def run(ctx):
         assert names[v.__name__] is v, 'class names must be unique for the model'
     ctx.rule = ('ids = proto.<P>.c1[.c2[.c3]] and c1[.c2] over 8 component names (registered and unregistered, names that are also categories); '
                 'error lists of 0..MaxErrs entries, the last one decides; registry read from the running code plus 4 classes registered through '
-                'the public subclass API; non-trivial = some candidate key of the last id is registered')
+                'the public subclass API; then three more classes are registered and the ids naming them are resolved again; non-trivial = some candidate key of the last id is registered')
     ctx.assumptions = ['unprefixed ids with more than two components are outside the compared domain (the statement does not say whether two leading components are stripped from them)',
                        'the registry itself is taken from the code: C27 is about the matching order']
     all_ids = ids(ctx.quick)
@@ -110,12 +110,51 @@ def run(ctx):
         ctx.count(errs, nontrivial=st['class'] != 'RpcError')
         if ok and st['class'] != 'RpcError':
             ctx.sample({'errors': ['.'.join(e) for e in errs], 'class': st['class']}, limit=5)
+    # ---- classes registered later: "registered" means registered at the time of the call, also for ids that were resolved before ----
+    reg2 = register_late()
+    late_ids = [i for i in all_ids if 'unknown_name' in i or 'unknown_cat' in i]
+    gen = {'RpcErrorsMC': MC % (to_tla({(k, v.__name__) for k, v in reg2.items()}), to_tla(set(late_ids)), to_tla(set(others[:1])))}
+    r2 = ctx.tlc('RpcErrorsMC', CFG % 1, gen=gen, dump=True, timeout=900, name='RpcErrorsMC_late')
+    ctx.require_no_violation(r2, 'RpcErrors (late registrations)')
+    nlate = 0
+    for st in iter_dump(r2.dump):
+        if st['pc'] != 'done':
+            continue
+        errs = st['errs']
+        got = impl_class(errs)
+        want = reg_class(reg2, st['class'])
+        ctx.replayed += 1
+        ctx.count(('late', errs), nontrivial=st['class'] != 'RpcError')
+        nlate += st['class'].startswith('VerifLate')
+        if got is not want:
+            ctx.mismatch('C27:replay:wrong-class:after-late-registration', 'errors %s after three more classes were registered: from_errors gave %s, most specific registered class is %s' % (
+                ['.'.join(e) for e in errs], got.__name__, want.__name__), {'errs': to_json(errs), 'class': st['class'], 'late': True})
+    if not nlate:
+        raise Exception('vacuity: no id resolves to a late class')
     ctx.exhaustive = True
+
+
+def register_late():
+    from pytezos.rpc.node import RpcError
+    if 'late' not in _extra:
+        class VerifLateFinal(RpcError, error_id='unknown_name'):
+            pass
+
+        class VerifLateCatName(RpcError, error_id='unknown_cat.unknown_name'):
+            pass
+
+        class VerifLateFull(RpcError, error_id='proto.alpha.tez.unknown_name'):
+            pass
+        _extra['late'] = (VerifLateFinal, VerifLateCatName, VerifLateFull)
+    return {tuple(k.split('.')): v for k, v in RpcError.__handlers__.items()}
 
 
 def replay(ctx, rep):
     reg = registry()
     c = rep['case']
+    if c.get('late'):
+        impl_class([tuple(e) for e in c['errs']])      # the id is resolved once before the classes exist
+        reg = register_late()
     ok = compare(ctx, reg, [tuple(e) for e in c['errs']], c['class'])
     for m in ctx.mismatches:
         print('REPRODUCED', m.signature, m.detail)
